@@ -16,7 +16,7 @@ RULE = ("plan = frame (0..12 rows quick / 0..40 thorough) with 1..3 group column
         "ordered by the ascending comparator (missing last); summaries recomputed from exactly the group's rows in original "
         "order; helper ≡ lambda. Non-trivial: ≥ 2 groups with one of size ≥ 2 whose rows are not contiguous in the input, or a "
         "missing/±inf/huge key, or ≥ 2 group columns. Distinct = plan hash.")
-CASES = {"quick": 1500, "thorough": 4000}
+CASES = {"quick": 1500, "thorough": 8000}
 
 KEY_KINDS = ["f", "i", "b", "s", "s", "u", "d", "t", "td", "o", "oi", "ob"]
 HELPERS = ["all", "any", "count", "count_unique", "first", "last", "nth", "min", "max", "mode", "mean", "median", "quantile",
